@@ -11,10 +11,30 @@ static int ref_group_width(uint64_t v) {
     return w <= 1 ? 1 : w <= 2 ? 2 : w <= 4 ? 4 : 8;
 }
 static int ref_bits(uint64_t v) { return v ? 64 - __builtin_clzll(v) : 0; }
+static bool g_colossal = false;
+/* MemAvailable in MiB (0 when unknown) */
+static size_t mem_available_mib(void) {
+    FILE *f = fopen("/proc/meminfo", "r");
+    if (!f) return 0;
+    char line[200];
+    size_t kb = 0;
+    while (fgets(line, sizeof line, f)) {
+        if (sscanf(line, "MemAvailable: %zu kB", &kb) == 1) break;
+    }
+    fclose(f);
+    return kb / 1024;
+}
 /* highest modified offset + 1 when the encoder runs over two complementary fills */
 static size_t bytes_actually_written(const codec_t *c, const uint64_t *a, size_t n, size_t cap, size_t *ret_out, encinfo_t *info_out, uint8_t **enc_out) {
     size_t hi = 0;
     uint8_t *keep = NULL;
+    if (g_colossal) { /* one pass into untouched pages; the highest-modified-offset measurement is skipped */
+        uint8_t *d = h_alloc_check(calloc(cap, 1), cap);
+        memset(info_out, 0, sizeof *info_out);
+        *ret_out = c->encode(d, a, n, info_out);
+        *enc_out = d;
+        return *ret_out;
+    }
     for (int pass = 0; pass < 2; pass++) {
         uint8_t *d = malloc(cap);
         uint8_t fill = pass ? 0x5A : 0xA5;
@@ -59,8 +79,25 @@ static void c16_case(uint64_t idx, rng_t *r) {
     const codec_t *c = &CODECS[midx[g % (uint64_t)nm]];
     char key[200];
     input_t in;
+    g_colossal = false;
+    if (g_param[4] && idx == 0) {
+        /* one colossal array for the codec named by --sparam: 2^29 + k elements whose frame needs 8-byte slots, so
+         * that the value section alone exceeds 4 GiB (count x width no longer fits in 32 bits) */
+        for (size_t i = 0; i < NCODECS; i++) if (!strcmp(CODECS[i].name, g_sparam)) c = &CODECS[i];
+        size_t n = ((size_t)1 << 29) + 5 + rng_below(r, 1000);
+        if (mem_available_mib() < 30000) {
+            STAT_INC("c16_colossal_skipped_low_memory");
+            return;
+        }
+        input_alloc(&in, n, 0);
+        for (size_t i = 0; i < n; i++) in.a[i] = ((uint64_t)i << 34) ^ (i & 0xffff);
+        in.model = AM_NMODELS;
+        g_colossal = true;
+        STAT_INC("c16_colossal_arrays");
+    } else {
     make_input(c, idx, r, &in);
-    if (rng_chance(r, 1, 5) && c->domain != DOM_GROUP && c->domain != DOM_STRICT16) { /* counts whose tagged length changes, multiples of 128 */
+    }
+    if (!g_colossal && rng_chance(r, 1, 5) && c->domain != DOM_GROUP && c->domain != DOM_STRICT16) { /* counts whose tagged length changes, multiples of 128 */
         static const size_t lens[] = {240, 241, 2287, 2288, 128, 256, 384, 129, 257, 1, 2};
         size_t n = lens[rng_below(r, 11)];
         free(in.base);
@@ -77,7 +114,7 @@ static void c16_case(uint64_t idx, rng_t *r) {
     size_t ret = 0;
     encinfo_t info;
     uint8_t *enc = NULL;
-    size_t cap = scratch_size(n);
+    size_t cap = g_colossal ? n * 10 + 9000 : scratch_size(n);
     size_t written = bytes_actually_written(c, a, n, cap, &ret, &info, &enc);
     if (ret == 0) goto out;
     bool elias = !strncmp(c->name, "elias", 5);
@@ -475,6 +512,7 @@ static void c06_case(uint64_t idx, rng_t *r) {
     g_enc_off = (idx & 1) ? (size_t)((idx >> 1) & 15) : 0;
     const char *kindname = "?";
     uint64_t *tmp;
+    bool wide = false;
     if (g_param[2] && idx == 0 && g_shard < 2) {
         /* > 1 MiB payloads: few-unique 1.2M values (forced DICT; shard 1 also automatic) */
         n = 1200000;
@@ -483,6 +521,27 @@ static void c06_case(uint64_t idx, rng_t *r) {
         for (int i = 0; i < 300; i++) u[i] = rng_next(r);
         for (size_t i = 0; i < n; i++) tmp[i] = u[rng_below(r, 300)];
         kindname = "huge-few-unique";
+    } else if (g_param[3] && idx >= 1 && idx <= g_param[3]) {
+        /* worst-case-width arrays around the count thresholds of the length prefixes (tagged 67824, 2^16, 2^17): every
+         * value distinct, nearly all of them 8 significant bytes wide; every forced encoding is run on them */
+        static const size_t wl[] = {65535, 65536, 65537, 67823, 67824, 67825, 70000, 100000, 131071, 131073, 200001};
+        n = wl[rng_below(r, sizeof wl / sizeof wl[0])];
+        tmp = malloc(n * 8);
+        int wk = (int)rng_below(r, 4);
+        uint64_t start = UINT64_MAX - (uint64_t)n * 3 - rng_below(r, 1000);
+        for (size_t i = 0; i < n; i++) {
+            uint64_t x;
+            if (wk == 0) x = rng_next(r) | 0xFF00000000000000ULL;          /* random, >= 2^56 (collisions are astronomically unlikely but harmless) */
+            else if (wk == 1) x = start + i * 3;                            /* ascending up to just below UINT64_MAX */
+            else if (wk == 2) x = (1ULL << 56) + i * 0x10001ULL;             /* ascending from 2^56 */
+            else x = rng_next(r);                                            /* uniform 64-bit */
+            tmp[i] = x;
+        }
+        if (wk != 3 && rng_chance(r, 1, 2)) tmp[rng_below(r, n)] = rng_below(r, 300); /* "all except at most one" */
+        if (wk == 1 && rng_chance(r, 1, 2)) shuffle(r, tmp, n);
+        kindname = wk == 0 ? "wide-distinct-random" : wk == 1 ? "wide-distinct-top" : wk == 2 ? "wide-distinct-from-2^56" : "uniform64-long";
+        wide = true;
+        STAT_INC("c06_wide_long_arrays");
     } else {
         tmp = c06_make(r, &n, &kindname);
     }
@@ -509,7 +568,7 @@ static void c06_case(uint64_t idx, rng_t *r) {
     /* forced encodings inside their documented domain */
     int which = (int)rng_below(r, 6);
     for (int f = 0; f < 6; f++) {
-        if (n > 3000 && f != which && !huge) continue; /* long arrays: one forced encoding per case */
+        if (n > 3000 && f != which && !huge && !wide) continue; /* long arrays: one forced encoding per case */
         if (huge && f != VARINT_ADAPTIVE_DICT) continue;
         if (f == VARINT_ADAPTIVE_BITMAP && !strictly_increasing16(a, n)) continue;
         char label[48];
